@@ -21,7 +21,10 @@ SPEC = {
         "C15_fanchor_merge_assoc", "C15_anchor_conversions", "C15_cut_midpoint", "C15_cut_area_conserved",
         "C15_cut_area_conserved_inner", "C15_swap_area_partial",
         # one proved negation per listed finding (DESIGN §6.3)
-        "C15_D9_witness", "C15_D15a_witness", "C15_D15b_witness", "C15_D15c_witness", "C15_D15d_witness", "C15_D15e_witness", "C15_D15g_witness",
+        "C15_D9_witness", "C15_D15a_witness", "C15_D15d_witness", "C15_D15e_witness", "C15_D15g_witness",
+        # former findings D15b / D15c (fixed in /repo 27a7433 / aac3ec9): positive theorems
+        "C15_cutOuter_second_half_anchored", "C15_cut_midpoint_under_vertex_id", "C15_cutOuter_unit_square_all_orders",
+        "C15_cutInner_unit_square_orders",
     ],
     "trusted_base": [
         "Lean 4.33 kernel; axioms propext, Classical.choice, Quot.sound only",
@@ -62,7 +65,7 @@ SPEC = {
             "surfaces) and optionally VTerm; stream 1: EVERY dart of every mesh as edge argument (both orientations of interior edges, boundary, "
             "next to the boundary) x swap / cut_inner|cut_outer (spare darts from `add`, natural and permuted) / collapse; stream 2: histories "
             "(<= 30 calls) of the same operations on random edges, generated adaptively from the implementation's own snapshots (the driver "
-            "re-anchors cells left without anchor by the listed findings so that histories stay inside the guard); stream 3 (correspondence + "
+            "re-anchors faces left without anchor by finding D15a so that histories stay inside the guard); stream 3 (correspondence + "
             "error => unchanged only): null / removed / free / out-of-range edges, wrong cut kind, null / repeated / linked / removed spare darts, "
             "undefined vertices, missing or partial anchors; stream 4: kernels inside tx blocks. Oracle on the implementation per call, from the "
             "snapshots before/after: ok => all faces triangles, wf, triangle set (as cyclic coordinate triples) = specified set, V/E/F deltas, "
@@ -85,7 +88,8 @@ SPEC = {
         "collapse: target position — FALSE today for boundary end points (D15d, C15_D15d_witness); triangle-mesh result — FALSE today for "
         "corner triangles collapsed towards an end point (D15e, C15_D15e_witness); one vertex left — FALSE for interior edges between two "
         "boundary vertices (D15f, replayed by the check, no `decide` witness)",
-        "anchors after cut / collapse (kept or lawfully merged): oracle only; FALSE today in the cases D15a, D15b (witnesses by `decide`)",
+        "anchors after cut / collapse (kept or lawfully merged): oracle only, except the second half of an outer cut (C15_cutOuter_second_half_anchored, every map; former D15b, /repo 27a7433); FALSE today in the case D15a (witness by `decide`)",
+        "cut: that the new vertex reads the midpoint at its identifier in the FINAL map of an arbitrary mesh (the write goes to vertex_id(nd1) at the time of the write: C15_cut_midpoint_under_vertex_id; that no later sew moves it needs the orbit calculus of C03): oracle on every case with natural and permuted spare darts, `decide` for all six numberings on the unit square (former D15c, /repo aac3ec9)",
         "WF theorems (a) assume the faces at the edge are closed at the edge darts (beta0, beta1 non-null) and, for the cuts, free in-use "
         "spare darts: on an open face cut_outer_edge / cut_inner_edge 1-sew the null dart (beta0(null) is written) — outside `triangle mesh`",
     ],
@@ -262,7 +266,7 @@ def mesh_of(lines):
 
 
 def refined(pre, g, rng, anchors, ncuts):
-    """the mesh after `ncuts` successful random cuts (re-anchored when the listed findings leave a cell bare)"""
+    """the mesh after `ncuts` successful random cuts (re-anchored if a listed finding leaves a cell bare; cuts no longer do since /repo 27a7433)"""
     for _ in range(ncuts):
         e = rng.choice(sorted({g.eid(d) for d in g.linked}))
         if anchors and g.b[2][e]:
@@ -317,7 +321,7 @@ def every_edge(tier, rng):
 # ---------------------------------------------------------------------------------------------
 
 def repair_lines(m):
-    """re-anchor the cells that have no anchor (left so by the listed findings), so that the history stays in the guard"""
+    """re-anchor the cells that have no anchor (faces after D15a), so that the history stays in the guard"""
     out = []
     if not any(m.anch.values()):
         return out
@@ -535,7 +539,7 @@ D15G_PRE = ['grid 2 1 224 ncl 0 0 2 2 1 1',
 
 
 def directed():
-    """the D9 witness of DESIGN §8 and the other listed findings on their smallest meshes"""
+    """the D9 witness of DESIGN §8, the other listed findings on their smallest meshes, and the former findings as regression cases"""
     w = ["snap", None, "snap", "wf"]
 
     def mk(cid, pre, op, sig):
@@ -544,8 +548,11 @@ def directed():
     return [
         mk("d9-unit-square", unit, "swap 2", "D9"),
         mk("d15a-1x2", ["grid 2 1 224 ncl 0 0 1 2 1 1"] + TWO_ANCH, "collapse 5", "D15a"),
-        mk("d15b-unit-square", unit_a + ["add 3"], "cutout 1 7 8 9", "D15b"),
-        mk("d15c-unit-square", unit + ["add 3"], "cutout 1 9 8 7", "D15c"),
+        # former findings D15b / D15c (fixed in /repo 27a7433 / aac3ec9): regression cases, the oracle must accept them
+        mk("fixed-d15b-unit-square", unit_a + ["add 3"], "cutout 1 7 8 9", "fixed-D15b"),
+        mk("fixed-d15c-unit-square", unit + ["add 3"], "cutout 1 9 8 7", "fixed-D15c"),
+        mk("fixed-d15bc-unit-square", unit_a + ["add 3"], "cutout 1 9 8 7", "fixed-D15b+c"),
+        mk("fixed-d15c-inner", unit + ["add 6"], "cutin 2 12 11 10 9 8 7", "fixed-D15c"),
         mk("d15d-2x2-cut", ["grid 2 1 0 ncl 0 0 2 2 1 1", "add 6", "cutin 5 25 26 27 28 29 30"], "collapse 26", "D15d"),
         mk("d15e-unit-square", unit_a, "collapse 5", "D15e"),
         mk("d15f-pinch", D15F_HISTORY, "collapse 8", "D15f"),
@@ -560,7 +567,7 @@ def run(tier, seed):
     NOTES.clear()
     remesh.DEGENERATE[0] = 0
     parts = []
-    parts.append(("directed (smallest witnesses of the listed findings)", hv.campaign(directed(), oracle_c15, max_report=10)))
+    parts.append(("directed (smallest witnesses of the listed findings; fixed findings as regression cases)", hv.campaign(directed(), oracle_c15, max_report=10)))
     r1 = hv.campaign(every_edge(tier, rng), oracle_c15, max_report=100)
     parts.append(("every dart of every mesh x swap / cut / collapse", r1))
     nh, ops = (120, 30) if tier == "quick" else (1200, 30)
